@@ -50,13 +50,21 @@ structure FwdRef where
   fulfilled : Bool
   deriving Repr
 
+/-- literals (`LiteralInt` / `LiteralBool` / `LiteralString`) -/
+inductive Lit where
+  | int (n : Int)
+  | bool (b : Bool)
+  | str (s : String)
+  deriving DecidableEq, Repr
+
 /-! ### source language -/
 mutual
   inductive SExpr where
-    | lit
+    | lit (v : Lit)
     | ident (x : String)
     | call (f : SExpr) (args : List SExpr)
     | tup (es : List SExpr)
+    | arr (es : List SExpr)
     | member (e : SExpr) (i : Nat)
     | lam (f : SFunc)
   inductive SParam where
@@ -73,13 +81,14 @@ end
 (after compiling: `val`), `Declaration`, `StaticUserFunction` -/
 mutual
   inductive XE where
-    | lit
+    | lit (v : Lit)
     | ident (x : String)
     | lamF (f : CFunc)
     | val (i : Nat)
     | call (f : XE) (args : List XE)
     | bcall (name : String) (args : List XE)
     | tup (es : List XE)
+    | arr (es : List XE)
     | member (e : XE) (i : Nat)
   inductive CDecl where
     | param (cell arg : Nat)
@@ -93,6 +102,9 @@ end
 def CFunc.cells : CFunc → List Cell | .mk _ c _ _ _ _ => c
 def CFunc.freqs : CFunc → List FwdReq | .mk _ _ _ _ _ f => f
 def CFunc.decls : CFunc → List CDecl | .mk _ _ _ d _ _ => d
+def CFunc.paramLen : CFunc → Nat | .mk n _ _ _ _ _ => n
+def CFunc.defaults : CFunc → List XE | .mk _ _ d _ _ _ => d
+def CFunc.out : CFunc → XE | .mk _ _ _ _ o _ => o
 
 structure Scope where
   cells : List Cell := []
@@ -347,7 +359,7 @@ mutual
     | 0 => .error .fuel
     | fuel + 1 =>
       match e with
-      | .lit => .ok (.lit, cur)
+      | .lit v => .ok (.lit v, cur)
       | .ident x => .ok (.ident x, cur)
       | .call f args =>
         match parseExpr fuel ps cur f with
@@ -360,6 +372,10 @@ mutual
         match parseList fuel ps cur es with
         | .error e => .error e
         | .ok (es', cur1) => .ok (.tup es', cur1)
+      | .arr es =>
+        match parseList fuel ps cur es with
+        | .error e => .error e
+        | .ok (es', cur1) => .ok (.arr es', cur1)
       | .member e i =>
         match parseExpr fuel ps cur e with
         | .error e => .error e
@@ -405,7 +421,7 @@ mutual
     | 0 => .error .fuel
     | fuel + 1 =>
       match e with
-      | .lit => .ok (.lit, cur)
+      | .lit v => .ok (.lit v, cur)
       | .val _ => .error (.panic "compile: not a static expression")
       | .bcall _ _ => .error (.panic "compile: not a static expression")
       | .ident x => compileIdent ps cur x
@@ -417,6 +433,10 @@ mutual
         match compileList fuel ps cur es with
         | .error e => .error e
         | .ok (es', cur1) => .ok (.tup es', cur1)
+      | .arr es =>
+        match compileList fuel ps cur es with
+        | .error e => .error e
+        | .ok (es', cur1) => .ok (.arr es', cur1)
       | .member e i =>
         match compileExpr fuel ps cur e with
         | .error e => .error e
